@@ -304,6 +304,28 @@ theorem c06_float_specials :
 theorem c06_float_special_texts :
     reprFloat .nan = "NaN".toList ∧ reprFloat .inf = "INF".toList ∧ reprFloat .ninf = "-INF".toList := by decide
 
+/-! ## 8. decimal: any sign, coefficient and exponent -/
+
+/-- `format(v, "f")` is a valid xs:decimal literal (no exponent notation) and `Decimal()` of it is the same number:
+    identical for a negative exponent, the multiplied-out coefficient with exponent 0 otherwise (`DecV.plain`) -/
+theorem c06_decimal_roundtrip (v : DecV) :
+    parseDec (reprDec v) = some (.fin v.plain) ∧ validDecimal (reprDec v) = true := dec_roundtrip v
+
+/-- `DecV.plain` keeps the number: sign, and coefficient · 10^exponent -/
+theorem c06_decimal_plain_same_number (v : DecV) :
+    v.plain.neg = v.neg ∧ (v.exp < 0 → v.plain = v) ∧
+    (0 ≤ v.exp → v.plain.exp = 0 ∧ v.plain.coeff = v.coeff * 10 ^ v.exp.toNat) := by
+  unfold DecV.plain
+  by_cases h : v.exp ≥ 0
+  · rw [if_pos h]; exact ⟨rfl, fun hn => absurd hn (by omega), fun _ => ⟨rfl, rfl⟩⟩
+  · rw [if_neg h]; exact ⟨rfl, fun _ => rfl, fun hp => absurd hp (by omega)⟩
+
+/-- witnesses of `Decimal()`'s laxness and of the unrejected special values (known findings) -/
+theorem c06_decimal_lax_witness :
+    validDecimal "1e3".toList = false ∧ parseDec "1e3".toList = some (.fin ⟨false, 1, 3⟩) ∧
+    validDecimal "NaN".toList = false ∧ parseDec "NaN".toList = some (.nan false false) ∧
+    validDecimal (reprDecR (.nan false false)) = false := by decide
+
 /-! ## non-vacuity: the hypotheses are satisfiable, the functions compute -/
 
 example : (⟨2024, 2, 29, some 840⟩ : DateV).ok ∧ Tz.inXsd (some 840) := by
@@ -326,6 +348,8 @@ example : reprDur ⟨0, 0, -3, 0, -1, -30, -500000⟩ = some "-P3DT1M30.5S".toLi
 example : parseDur "-P3DT1M30.5S".toList = some ⟨0, 0, -3, 0, -1, -30, -500000⟩ := by decide
 example : parseDur "PT90S".toList = some ⟨0, 0, 0, 0, 1, 30, 0⟩ ∧ parseDur "PT0.000249S".toList = some ⟨0, 0, 0, 0, 0, 0, 249⟩ := by decide
 example : reprDur ⟨0, 0, -3, 0, 0, 10, 0⟩ = none := by decide
+example : reprDec ⟨false, 1, 5⟩ = "100000".toList ∧ reprDec ⟨true, 123456, -6⟩ = "-0.123456".toList ∧
+    reprDec ⟨false, 123, -2⟩ = "1.23".toList ∧ reprDec ⟨true, 0, 2⟩ = "-0".toList := by decide
 example : ¬ LaxZone "2023-02-29".toList ∧ dropNl "2023-02-29".toList = "2023-02-29".toList :=
   ⟨fun h => absurd (LaxZone.colon h) (by decide), by decide⟩
 
